@@ -161,6 +161,9 @@ def plant(d, r, kind, enc, comment=None):
         elif which == "page" and not getattr(d, "has_page", False):
             d.has_page = True
             ln = d.add('<%page args="' + nl + "    pa=_('" + m + "')," + nl + "    pb=_('" + m2 + "')" + Q + "/>" + nl)
+        elif r.random() < 0.5:
+            # the call expression itself starts on the line after the opening quote
+            ln = d.add('<%call expr="' + nl + "    wrap(_('" + m + "')," + nl + "    _('" + m2 + "'))" + Q + ">" + nl + "in call" + nl + "</%call>" + nl)
         else:
             ln = d.add('<%call expr="wrap(' + nl + "    _('" + m + "')," + nl + "    _('" + m2 + "'))" + Q + ">" + nl + "in call" + nl + "</%call>" + nl)
         exp(ln + 1, "_", m)
